@@ -301,6 +301,6 @@ def strat_fail(tier):
 def parts(tier):
     return [
         Part("grid", check=check, enum=enum_grid, quick=(8, 0), thorough=(16, 0), exhaustive=True),
-        Part("generated", check=check, strategy=strat, quick=(16, 60), thorough=(16, 1500)),
-        Part("cipher_failure", check=check_cipher_failure, strategy=strat_fail, quick=(8, 60), thorough=(16, 600)),
+        Part("generated", check=check, strategy=strat, quick=(16, 250), thorough=(16, 1500)),
+        Part("cipher_failure", check=check_cipher_failure, strategy=strat_fail, quick=(16, 100), thorough=(16, 600)),
     ]
